@@ -71,7 +71,7 @@ class HardcodeRepeat(JMCFunction):
                 commands.extend(
                     self.datapack.parse_function_token(
                         Token(
-                            TokenType.PAREN_CURLY,
+                            TokenType.FUNC,
                             self.raw_args["function"].token.line,
                             self.raw_args["function"].token.col,
                             _hardcode_process(
@@ -127,7 +127,7 @@ class HardcodeRepeatList(JMCFunction):
                 commands.extend(
                     self.datapack.parse_function_token(
                         Token(
-                            TokenType.PAREN_CURLY,
+                            TokenType.FUNC,
                             self.raw_args["function"].token.line,
                             self.raw_args["function"].token.col,
                             _hardcode_process(
@@ -212,7 +212,7 @@ class HardcodeRepeatLists(JMCFunction):
                 commands.extend(
                     self.datapack.parse_function_token(
                         Token(
-                            TokenType.PAREN_CURLY,
+                            TokenType.FUNC,
                             self.raw_args["function"].token.line,
                             self.raw_args["function"].token.col,
                             _hardcode_processes(
@@ -273,7 +273,7 @@ class HardcodeSwitch(JMCFunction):
                 func_contents.append(
                     self.datapack.parse_function_token(
                         Token(
-                            TokenType.PAREN_CURLY,
+                            TokenType.FUNC,
                             self.raw_args["function"].token.line,
                             self.raw_args["function"].token.col,
                             _hardcode_process(
@@ -489,7 +489,7 @@ class RaycastSimple(JMCFunction):
             try:
                 recursion_commands = self.datapack.parse_function_token(
                     Token(
-                        TokenType.PAREN_CURLY,
+                        TokenType.FUNC,
                         self.raw_args["overideRecursion"].token.line,
                         self.raw_args["overideRecursion"].token.col,
                         self.raw_args["overideRecursion"].token.string.replace(
